@@ -46,7 +46,7 @@ def decide(c, sub=None, atoms=None, oracle=None, conds=None):
         return True
     if c is sp.false or c is False:
         return False
-    if oracle is not None and not (isinstance(c, tuple) and c and c[0] in ("&&", "||", "!", "ite", "loop", "each", "switch")):
+    if oracle is not None and not (isinstance(c, tuple) and c and c[0] in ("&&", "||", "!", "ite", "loop", "each", "switch")) and not (isinstance(c, tuple) and not c):
         o = oracle(c)
         if o is not None:
             name, pol = o
@@ -62,8 +62,10 @@ def decide(c, sub=None, atoms=None, oracle=None, conds=None):
                 a_, b_ = decide(c[2], sub, atoms, oracle, conds), decide(c[3], sub, atoms, oracle, conds)
                 return a_ if a_ == b_ else None
             return decide(c[2] if t else c[3], sub, atoms, oracle, conds)
-        if op in ("loop", "each", "switch"):
+        if op in ("loop", "each"):
             return True
+        if op == "switch":
+            return True if oracle is None else (lambda o: True if o is None else (atoms.get(o[0]) == o[1] if o[0] in atoms else None))(oracle(c))
         if op == "!" and len(c) == 2:
             r = decide(c[1], sub, atoms, oracle, conds)
             return None if r is None else (not r)
